@@ -385,7 +385,11 @@ func (m *Mux) DropConn(ctx context.Context, cc *grpc.ClientConn) bool {
 	defer m.mu.Unlock()
 	s := m.loadState().clone()
 
-	return s.removeHandler(cc)
+	ok := s.removeHandler(cc)
+	if ok {
+		m.storeState(s) // publish the state without the connection
+	}
+	return ok
 }
 
 // resolver implements protodesc.Resolver.
